@@ -882,18 +882,22 @@ func (w *World) runReads(r *rand.Rand, cl int, phase string, n int, plan *ReadPl
 
 // GCReport is what the C14 phase observed.
 type GCReport struct {
-	Ranges      [][2]string // sub-ranges handed to the recording handler, in the order received
-	RangeErr    string
-	FailedAt    int
-	SafePoint   uint64
-	GCErr       string
-	LocksAfter  []string // locks with start ts <= safe point found in the store right after a successful GC
-	BelowErr    string   // error class of a read below the safe point ("" = served)
-	AtErr       string   // error of a read at the safe point
-	DelErr      string
-	DelDone     bool
-	TruthBefore simkit.Truth // before the delete-range task
-	TruthAfter  simkit.Truth
+	Ranges     [][2]string // sub-ranges handed to the recording handler, in the order received
+	RangeErr   string
+	FailedAt   int
+	SafePoint  uint64
+	GCErr      string
+	LocksAfter []string // locks with start ts <= safe point found in the store right after a successful GC
+	BelowErr   string   // error class of a read below the safe point ("" = served)
+	AtErr      string   // error of a read at the safe point
+	// a read (get / batch get / scan, by the seed) at the safe point during which the store learns a greater safe point
+	MovedKind    string
+	MovedErr     string
+	MovedChecked bool // the greater safe point was learned while the read's last request was in flight
+	DelErr       string
+	DelDone      bool
+	TruthBefore  simkit.Truth // before the delete-range task
+	TruthAfter   simkit.Truth
 }
 
 // runGC executes the C14 phase on the observer client.
@@ -901,6 +905,11 @@ func (w *World) runGC(plan *GCPlan) *GCReport {
 	rep := &GCReport{FailedAt: -1}
 	st := w.Stores[len(w.Stores)-1]
 	ctx := context.Background()
+	// planned faults of the GC client are addressed relative to this marker; a split attached to one of
+	// its requests (ScanLock, ResolveLock, ...) cuts the region the request goes to at a key INSIDE it
+	w.Net.SetMark(len(w.Stores)-1, "gc")
+	w.Net.Topo = &innerSplitTopo{cl: w.Cl, keys: w.allKeys, h: simkit.NewHasher(w.Sim.Seed, "gcsplit")}
+	defer func() { w.Net.Topo = w.Cl }()
 	// 1. range task coverage with a recording handler
 	var mu sync.Mutex
 	calls := 0
@@ -961,10 +970,72 @@ func (w *World) runGC(plan *GCPlan) *GCReport {
 			if err != nil && !tikverr.IsErrNotFound(err) {
 				rep.AtErr = classify(err)
 			}
+			// 4. the store learns a greater safe point while a read at the old one is in flight
+			gc := len(w.Stores) - 1
+			rep.MovedKind = []string{"get", "bget", "scan"}[simkit.NewHasher(uint64(plan.Seed), "moved").Intn("kind", 3)]
+			before := len(w.Net.Trace())
+			var learnedAt time.Duration
+			learned := make(chan struct{})
+			go func() {
+				defer close(learned)
+				time.Sleep(100 * time.Microsecond)
+				st.UpdateTxnSafePointCache(rep.SafePoint+16, time.Now())
+				learnedAt = w.Sim.Now()
+			}()
+			snap := st.GetSnapshot(rep.SafePoint)
+			switch rep.MovedKind {
+			case "get":
+				_, err = snap.Get(ctx, []byte("b"))
+			case "bget":
+				_, err = snap.BatchGet(ctx, [][]byte{[]byte("b"), []byte("e")})
+			default:
+				it, e := snap.Iter([]byte("b"), nil)
+				if err = e; e == nil {
+					it.Close()
+				}
+			}
+			<-learned
+			if err != nil && !tikverr.IsErrNotFound(err) {
+				rep.MovedErr = classify(err)
+				if _, ok := errors.Cause(err).(*tikverr.ErrTxnAbortedByGC); ok {
+					rep.MovedErr = "aborted-by-gc"
+				}
+			}
+			for _, r := range w.Net.Trace()[before:] {
+				if r.Client == gc && simkit.VersionOf(r.Req) == rep.SafePoint && r.Returned && r.DoneAt > learnedAt {
+					rep.MovedChecked = true
+				}
+			}
 		}
 	}
 	return rep
 }
+
+// innerSplitTopo splits the region a request goes to at a key of the pool strictly inside it (the plain
+// cluster topology splits at the request's first key, which for a range request is the region's start).
+type innerSplitTopo struct {
+	cl   *simkit.Cluster
+	keys [][]byte
+	h    *simkit.Hasher
+	n    int
+}
+
+func (t *innerSplitTopo) SplitAt(key []byte) bool {
+	lo, hi := t.cl.RangeOf(key)
+	var cands [][]byte
+	for _, k := range t.keys {
+		if bytes.Compare(k, lo) > 0 && (len(hi) == 0 || bytes.Compare(k, hi) < 0) {
+			cands = append(cands, k)
+		}
+	}
+	if len(cands) == 0 {
+		return false
+	}
+	t.n++
+	return t.cl.SplitAt(cands[t.h.Intn(fmt.Sprintf("%q#%d", key, t.n), len(cands))])
+}
+
+func (t *innerSplitTopo) MoveLeaderOf(key []byte) bool { return t.cl.MoveLeaderOf(key) }
 
 // runDeleteRange executes the delete-range task after everything else was audited.
 func (w *World) runDeleteRange(plan *GCPlan, rep *GCReport) {
